@@ -68,12 +68,12 @@ Section LineCalls.
     rewrite !skipn_all. repeat split; auto. exists []. auto.
   Qed.
 
-  Lemma ss_iter_spec : forall fuel s acc k, RI C k (ss_buf s) -> ss_tell s = k ->
+  Lemma ss_iter_spec : forall fuel s acc k, RI C k (ss_buf s) ->
     length (lines (skipn k C)) < fuel ->
     exists s', ss_iter fuel s acc = (s', OLines (acc ++ lines (skipn k C))) /\
-               RI C (length C) (ss_buf s') /\ ss_tell s' = length C /\ same_cfg s s'.
+               RI C (length C) (ss_buf s') /\ ss_tell s' = ss_tell s + (length C - k) /\ same_cfg s s'.
   Proof.
-    induction fuel as [|fuel IH]; intros s acc k I T F; [lia|].
+    induction fuel as [|fuel IH]; intros s acc k I F; [lia|].
     assert (K : k <= length C) by (destruct I as [_ [K _]]; exact K).
     cbn [ss_iter].
     destruct (take_line (skipn k C)) as [|x l] eqn:E.
@@ -82,7 +82,7 @@ Section LineCalls.
       { apply (f_equal (@length N)) in E. rewrite skipn_length in E. cbn in E. lia. }
       rewrite H in *. clear H. destruct (ss_next_stop s I) as [s' [N1 [N2 [N3 N4]]]].
       rewrite N1. rewrite skipn_all. cbn [lines]. rewrite app_nil_r.
-      exists s'. split; [reflexivity|]. split; [exact N2|]. split; [congruence|exact N4].
+      exists s'. split; [reflexivity|]. split; [exact N2|]. split; [lia|exact N4].
     - assert (NE : take_line (skipn k C) <> []) by (rewrite E; discriminate).
       assert (NE' : skipn k C <> []) by (intro Z; rewrite Z in E; discriminate).
       rewrite (ss_next_line s k I NE).
@@ -92,8 +92,9 @@ Section LineCalls.
       rewrite (lines_unfold _ NE') in F |- *. fold d in F |- *. cbn [length] in F.
       assert (Sk : skipn (length d) (skipn k C) = skipn (k + length d) C) by (now rewrite <- skipn_add).
       rewrite Sk in *.
-      destruct (IH s1 (acc ++ [d]) (k + length d) R2 ltac:(lia) ltac:(lia)) as [s' [J1 [J2 [J3 J4]]]].
-      exists s'. rewrite J1, <- app_assoc. split; [reflexivity|]. split; [exact J2|]. split; [exact J3|].
+      destruct (IH s1 (acc ++ [d]) (k + length d) R2 ltac:(lia)) as [s' [J1 [J2 [J3 J4]]]].
+      assert (Kd : k + length d <= length C) by (destruct R2 as [_ [Kd _]]; exact Kd).
+      exists s'. rewrite J1, <- app_assoc. split; [reflexivity|]. split; [exact J2|]. split; [lia|].
       eapply same_cfg_trans; eassumption.
   Qed.
 End LineCalls.
@@ -134,6 +135,12 @@ Proof.
     rewrite Cc. cbn [rf_data]. now rewrite app_assoc.
 Qed.
 
+Lemma skipn_min {A} p (l : list A) : skipn (Nat.min p (length l)) l = skipn p l.
+Proof.
+  destruct (Nat.le_ge_cases p (length l)); [now rewrite Nat.min_l|].
+  rewrite Nat.min_r by assumption. now rewrite skipn_all, skipn_all2.
+Qed.
+
 Lemma ss_step0_ref f s op :
   SI f s -> ref_pre KString f op = true -> op_valid op ->
   (is_line_op op = true -> plain (rf_data f)) ->
@@ -142,9 +149,13 @@ Lemma ss_step0_ref f s op :
   same_cfg s (fst (ss_step0 s op)).
 Proof.
   intros [V [Ch [T I]]] Pre Val Pl.
-  assert (K : rf_pos f <= length (rf_data f)) by (destruct I as [_ [K _]]; exact K).
+  set (L := length (rf_data f)) in *. set (k := Nat.min (rf_pos f) L) in *.
+  assert (K : k <= L) by (unfold k; lia).
+  assert (Hk : skipn k (rf_data f) = rest f) by (unfold k, L, rest; apply skipn_min).
+  assert (Lr : length (rest f) = L - k).
+  { rewrite <- Hk, skipn_length. reflexivity. }
   assert (Mk : forall s' f', ss_chunk s' = ss_chunk s -> ss_tell s' = rf_pos f' -> rf_data f' = rf_data f ->
-                 RI (rf_data f) (rf_pos f') (ss_buf s') -> SI f' s').
+                 RI (rf_data f) (Nat.min (rf_pos f') L) (ss_buf s') -> SI f' s').
   { intros s' f' H1 H2 H3 H4. unfold SI. rewrite H3, H1. auto. }
   destruct op as [d| |n|[lim|]|[|hint]| | | |off wh| | | |ds]; cbn [ref_pre] in Pre; try discriminate.
   - (* write *)
@@ -156,81 +167,88 @@ Proof.
     split; [exact (conj V (conj Ch (conj T I)))|apply same_cfg_refl].
   - (* read *)
     cbn [ss_step0].
-    pose proof (ss_read_spec (rf_data f) V s (rf_pos f) n I) as [R1 [R2 [R3 R4]]].
-    destruct (ss_read s n) as [s' ret]. cbn [fst snd] in *.
+    pose proof (ss_read_spec (rf_data f) V s k n I) as [R1 [R2 [R3 R4]]].
+    destruct (ss_read s n) as [s' ret]. cbn [fst snd] in *. rewrite Hk in R1.
     assert (E : ref_step f (Read n) = (advance f (length ret), OData ret)).
     { rewrite R1. destruct n; reflexivity. }
+    assert (Lret : length ret <= L - k).
+    { rewrite R1, <- Lr. destruct n; [rewrite firstn_length|]; lia. }
     rewrite E. cbn [fst snd]. split; [reflexivity|]. split; [|exact R4].
-    apply Mk; auto; [apply R4|cbn; lia].
+    apply Mk; auto; [apply R4|cbn; lia|cbn].
+    replace (Nat.min (rf_pos f + length ret) L) with (k + length ret) by (unfold k in *; lia). exact R2.
   - (* readline *)
     cbn [ss_step0 ref_step].
-    pose proof (ss_readline_spec (rf_data f) V (Pl eq_refl) s (rf_pos f) I) as [R1 [R2 [R3 R4]]].
-    destruct (ss_readline s) as [s' ret]. cbn [fst snd] in *.
-    fold (rest f) in R1. rewrite <- R1. split; [reflexivity|]. split; [|exact R4].
-    apply Mk; auto; [apply R4|cbn; lia].
+    pose proof (ss_readline_spec (rf_data f) V (Pl eq_refl) s k I) as [R1 [R2 [R3 R4]]].
+    destruct (ss_readline s) as [s' ret]. cbn [fst snd] in *. rewrite Hk in R1.
+    rewrite <- R1. split; [reflexivity|]. split; [|exact R4].
+    assert (Lret : length ret <= L - k).
+    { rewrite R1, <- Lr. apply take_line_length. }
+    apply Mk; auto; [apply R4|cbn; lia|cbn].
+    replace (Nat.min (rf_pos f + length ret) L) with (k + length ret) by (unfold k in *; lia). exact R2.
   - (* readlines *)
     cbn [ss_step0 ref_step].
-    pose proof (ss_readlines_spec (rf_data f) V (Pl eq_refl) s (rf_pos f) I) as [R1 [R2 [R3 R4]]].
-    destruct (ss_readlines s) as [s' ret]. cbn [fst snd] in *.
-    rewrite take_hint_0, total_len_lines. fold (rest f) in R1. rewrite R1.
-    split; [reflexivity|]. split; [|exact R4].
-    rewrite rest_length by exact K.
-    apply Mk; auto; [apply R4|cbn; lia|cbn].
-    replace (rf_pos f + (length (rf_data f) - rf_pos f)) with (length (rf_data f)) by lia. exact R2.
+    pose proof (ss_readlines_spec (rf_data f) V (Pl eq_refl) s k I) as [R1 [R2 [R3 R4]]].
+    destruct (ss_readlines s) as [s' ret]. cbn [fst snd] in *. rewrite Hk in R1.
+    rewrite take_hint_0, total_len_lines. rewrite R1.
+    split; [reflexivity|]. split; [|exact R4]. rewrite Lr.
+    apply Mk; auto; [apply R4|cbn; fold L; lia|cbn].
+    replace (Nat.min (rf_pos f + (L - k)) L) with L by (unfold k in *; lia). exact R2.
   - (* next *)
-    cbn [ss_step0 ref_step]. fold (rest f).
+    cbn [ss_step0 ref_step].
     destruct (take_line (rest f)) as [|x l] eqn:E.
-    + apply (proj1 (take_line_nil_iff _)) in E. apply (proj1 (rest_nil_iff _ K)) in E.
-      rewrite E in I.
+    + apply (proj1 (take_line_nil_iff _)) in E.
+      assert (kL : k = L) by (rewrite E in Lr; cbn in Lr; lia).
+      rewrite kL in I.
       destruct (ss_next_stop (rf_data f) V (Pl eq_refl) s I) as [s' [N1 [N2 [N3 N4]]]].
       rewrite N1. cbn [fst snd]. split; [reflexivity|]. split; [|exact N4].
-      apply Mk; auto; [apply N4|congruence|now rewrite E].
-    + assert (NE : take_line (skipn (rf_pos f) (rf_data f)) <> []) by (unfold rest in E; rewrite E; discriminate).
-      rewrite (ss_next_line (rf_data f) V (Pl eq_refl) s (rf_pos f) I NE).
-      pose proof (ss_readline_spec (rf_data f) V (Pl eq_refl) s (rf_pos f) I) as [R1 [R2 [R3 R4]]].
-      unfold rest in E. rewrite E in *. cbn [fst snd]. split; [reflexivity|]. split; [|exact R4].
+      apply Mk; auto; [apply N4|congruence|]. fold k. now rewrite kL.
+    + assert (NE : take_line (skipn k (rf_data f)) <> []) by (rewrite Hk, E; discriminate).
+      rewrite (ss_next_line (rf_data f) V (Pl eq_refl) s k I NE).
+      pose proof (ss_readline_spec (rf_data f) V (Pl eq_refl) s k I) as [R1 [R2 [R3 R4]]].
+      rewrite Hk, E in *. cbn [fst snd]. split; [reflexivity|]. split; [|exact R4].
       rewrite R1 in R2, R3.
-      apply Mk; auto; [apply R4|cbn [advance rf_pos]; lia].
+      assert (Lret : length (x :: l) <= L - k).
+      { rewrite <- Lr, <- E. apply take_line_length. }
+      apply Mk; auto; [apply R4|cbn [advance rf_pos]; lia|cbn [advance rf_pos]].
+      replace (Nat.min (rf_pos f + length (x :: l)) L) with (k + length (x :: l)) by (unfold k in *; lia). exact R2.
   - (* list(f): len(f), then iteration *)
     cbn [ss_step0 ref_step].
-    rewrite <- T in I.
+    unfold k in I. rewrite <- T in I.
     pose proof (ss_len_spec (rf_data f) V s I Ch) as [L1 [L2 [L3 L4]]].
     destruct (ss_len s) as [s1 n]. cbn [fst snd] in *.
-    rewrite T in L2.
+    rewrite T in L2. fold L in L2. fold k in L2.
     assert (D1 : rf_data (ef_stream (ss_buf s1)) = utf8_enc (rf_data f)) by (destruct L2 as [_ [_ [D _]]]; exact D).
     destruct (ss_iter_spec (rf_data f) V (Pl eq_refl) (S (length (rf_data (ef_stream (ss_buf s1))))) s1 []
-                (rf_pos f) L2 ltac:(congruence) ltac:(rewrite D1; now apply lines_fuel))
+                k L2 ltac:(rewrite D1; now apply lines_fuel))
       as [s' [J1 [J2 [J3 J4]]]].
-    rewrite J1. cbn [fst snd app]. fold (rest f). rewrite total_len_lines.
-    split; [reflexivity|]. split; [|eapply same_cfg_trans; eassumption].
-    rewrite rest_length by exact K.
+    rewrite J1, Hk. cbn [fst snd app]. rewrite total_len_lines.
+    split; [reflexivity|]. split; [|eapply same_cfg_trans; eassumption]. rewrite Lr.
     apply Mk; auto.
     + destruct L4, J4; congruence.
-    + cbn. lia.
-    + cbn. replace (rf_pos f + (length (rf_data f) - rf_pos f)) with (length (rf_data f)) by lia. exact J2.
+    + cbn. fold L in J3. lia.
+    + cbn. replace (Nat.min (rf_pos f + (L - k)) L) with L by (unfold k in *; lia). exact J2.
   - (* iteration *)
     cbn [ss_step0 ref_step].
     assert (D1 : rf_data (ef_stream (ss_buf s)) = utf8_enc (rf_data f)) by (destruct I as [_ [_ [D _]]]; exact D).
     destruct (ss_iter_spec (rf_data f) V (Pl eq_refl) (S (length (rf_data (ef_stream (ss_buf s))))) s []
-                (rf_pos f) I T ltac:(rewrite D1; now apply lines_fuel))
+                k I ltac:(rewrite D1; now apply lines_fuel))
       as [s' [J1 [J2 [J3 J4]]]].
-    rewrite J1. cbn [fst snd app]. fold (rest f). rewrite total_len_lines.
-    split; [reflexivity|]. split; [|exact J4].
-    rewrite rest_length by exact K.
+    rewrite J1, Hk. cbn [fst snd app]. rewrite total_len_lines.
+    split; [reflexivity|]. split; [|exact J4]. rewrite Lr.
     apply Mk; auto.
     + apply J4.
-    + cbn. lia.
-    + cbn. replace (rf_pos f + (length (rf_data f) - rf_pos f)) with (length (rf_data f)) by lia. exact J2.
+    + cbn. fold L in J3. lia.
+    + cbn. replace (Nat.min (rf_pos f + (L - k)) L) with L by (unfold k in *; lia). exact J2.
   - (* seek *)
-    destruct I as [Ok [_ [D [W [LO X]]]]].
-    assert (I : RI (rf_data f) (rf_pos f) (ss_buf s)) by (repeat split; auto).
-    apply andb_true_iff in Pre as [Pre P34]. apply andb_true_iff in P34 as [P3 P4].
+    assert (Ok : rd_ok (ef_rd (ss_buf s)) = true) by (destruct I as [Ok _]; exact Ok).
+    assert (D : rf_data (ef_stream (ss_buf s)) = utf8_enc (rf_data f)) by (destruct I as [_ [_ [D _]]]; exact D).
+    apply andb_true_iff in Pre as [Pre P4].
     apply andb_true_iff in Pre as [P1 P2].
-    destruct wh as [|[|[|wh]]]; [| | |cbn in P1; discriminate]; cbn [seek_target Nat.eqb orb] in P2, P3, P4.
+    destruct wh as [|[|[|wh]]]; [| | |cbn in P1; discriminate]; cbn [seek_target Nat.eqb orb] in P2, P4.
     + (* SEEK_SET *)
       cbn [ss_step0 ss_seek ref_step seek_target].
       replace (off <? 0)%Z with false by lia.
-      destruct (ss_seek_set_spec (rf_data f) V s (Z.to_nat off) D Ok ltac:(lia) Ch) as [S1 [S2 S3]].
+      destruct (ss_seek_set_spec (rf_data f) V s (Z.to_nat off) D Ok Ch) as [S1 [S2 S3]].
       cbn [fst snd]. rewrite S2. split; [reflexivity|]. split; [|exact S3].
       apply Mk; auto. apply S3.
     + (* SEEK_CUR, offset 0 *)
@@ -245,19 +263,18 @@ Proof.
     + (* SEEK_END, offset 0 *)
       assert (off = 0%Z) by lia. subst off.
       cbn [ss_step0 ss_seek ref_step seek_target].
-      rewrite <- T in I.
+      unfold k in I. rewrite <- T in I.
       pose proof (ss_len_spec (rf_data f) V s I Ch) as [L1 [L2 [L3 L4]]].
-      destruct (ss_len s) as [s1 total]. cbn [fst snd] in *. subst total.
-      replace (Z.of_nat (length (rf_data f)) - 0 <? 0)%Z with false by lia.
-      replace (Z.of_nat (length (rf_data f)) + 0 <? 0)%Z with false by lia.
-      replace (Z.to_nat (Z.of_nat (length (rf_data f)) - 0)) with (length (rf_data f)) by lia.
-      replace (Z.to_nat (Z.of_nat (length (rf_data f)) + 0)) with (length (rf_data f)) by lia.
+      destruct (ss_len s) as [s1 total]. cbn [fst snd] in *. subst total. fold L.
+      replace (Z.of_nat L - 0 <? 0)%Z with false by lia.
+      replace (Z.of_nat L + 0 <? 0)%Z with false by lia.
+      replace (Z.to_nat (Z.of_nat L - 0)) with L by lia.
+      replace (Z.to_nat (Z.of_nat L + 0)) with L by lia.
       destruct L2 as [Ok1 [_ [D1 _]]].
       set (s2 := ss_with s1 (ef_seek (ss_buf s1) 0 0) (ss_tell s1)).
-      assert (I2 : RI (rf_data f) 0 (ss_buf s2)) by (apply ef_seek0_RI; assumption).
+      assert (I2 : RI (rf_data f) (Nat.min 0 L) (ss_buf s2)) by (apply ef_seek0_RI; assumption).
       destruct L4 as [M4 C4].
-      destruct (ss_traverse_spec (rf_data f) V (length (rf_data f)) (le_n _)
-                  (S (S (length (rf_data f)))) s2 0 I2 ltac:(lia) ltac:(lia) ltac:(cbn; lia)) as [T1 T2].
+      destruct (ss_traverse_spec (rf_data f) V L (S (S L)) s2 0 I2 ltac:(lia) ltac:(lia) ltac:(cbn; lia)) as [T1 T2].
       cbn [fst snd ss_with ss_tell ss_buf].
       split; [reflexivity|]. split.
       * apply Mk; auto. destruct T2 as [_ T2]. cbn in *. congruence.
@@ -267,14 +284,14 @@ Proof.
     split; [exact (conj V (conj Ch (conj T I)))|apply same_cfg_refl].
   - (* getvalue *)
     cbn [ss_step0 ref_step].
-    rewrite <- T in I.
+    unfold k in I. rewrite <- T in I.
     pose proof (ss_getvalue_spec (rf_data f) V s I Ch) as [G1 [G2 [G3 G4]]].
     destruct (ss_getvalue s) as [s' v]. cbn [fst snd] in *. subst v.
     split; [reflexivity|]. split; [|exact G4].
     apply Mk; auto; [apply G4|congruence|now rewrite <- T].
   - (* len *)
     cbn [ss_step0 ref_step].
-    rewrite <- T in I.
+    unfold k in I. rewrite <- T in I.
     pose proof (ss_len_spec (rf_data f) V s I Ch) as [G1 [G2 [G3 G4]]].
     destruct (ss_len s) as [s' v]. cbn [fst snd] in *. subst v.
     split; [reflexivity|]. split; [|exact G4].
